@@ -133,6 +133,19 @@ elif w.get("op") == "run_local":
         bad.append(f"no readable output record: {type(e).__name__}: {e}; stderr={r.stderr[-200:]}")
     if os.path.isdir(scratch) and os.listdir(scratch):
         bad.append(f"scratch residue: {os.listdir(scratch)}")
+    # an earlier record of the same input lies in the output directory (first attempt failed, the job is run again): the job is executed
+    d4 = tempfile.mkdtemp()
+    flag = os.path.join(d4, "attempts")
+    j4 = JobInput("again", commands=[(f"sh -c 'echo x >> {flag}; test $(wc -l < {flag}) -ge 2 && touch r1'", "c0")], return_files=("r1",))
+    j4.dump(os.path.join(d4, "job.inp"))
+    rr = [subprocess.run([exe, os.path.join(d4, "job.inp"), "-o", os.path.join(d4, "out"), "-s", os.path.join(d4, "scr")], capture_output=True, text=True, timeout=120) for _ in range(2)]
+    try:
+        o4 = JobOutput.load(os.path.join(d4, "out", "job.out"))
+        n_att = len(open(flag).read().split())
+        if n_att != 2 or rr[1].returncode != 0 or o4.exitcode != 0 or "r1" not in o4.files:
+            bad.append(f"a job whose first attempt failed, executed again: {n_att} attempts were made, second exit status {rr[1].returncode}, recorded exit code {o4.exitcode}, files {sorted(o4.files)}")
+    except BaseException as e:
+        bad.append(f"rerun scenario: {type(e).__name__}: {e}")
     # the job's environment wins over the runner's own; a command killed by the time limit is a failed command
     d2 = tempfile.mkdtemp()
     j2 = JobInput("env", commands=[("sh -c 'echo $JV; touch r1 r2'", "c0")], return_files=("r1", "r2"), envars={"JV": "from-the-job"})
@@ -156,6 +169,46 @@ elif w.get("op") == "run_local":
     except BaseException as e:
         if r3.returncode == 0:
             bad.append(f"time-limit scenario: exit 0 without an output record ({type(e).__name__})")
+elif w.get("op") == "caller-arguments":
+    from molli.pipeline.job import Job
+    seen = []
+
+    def prep(job, item, *args, **kwargs):
+        seen.append(("prep", job, item, args, kwargs))
+        return ("prepared", item)
+
+    def post(job, out, item, *args, **kwargs):
+        seen.append(("post", job, out, item, args, kwargs))
+        return ("processed", out, item)
+
+    def red(job, results, items, *args, **kwargs):
+        seen.append(("reduce", job, args, kwargs))
+        return list(results)
+    job = Job(prep=prep, post=post, return_files=("out.xyz",))
+    vec = Job.vectorize(job)
+    vec.reduce(red)
+    try:
+        r = job.prepare("x1", 7, kw="k")
+        if r != ("prepared", "x1") or seen[-1][1:] != (job, "x1", (7,), {"kw": "k"}):
+            bad.append(f"job.prepare(item, 7, kw='k') called the user's function with {seen[-1][2:]}")
+        r = job.process("o1", "x1", 7, kw="k")
+        if r != ("processed", "o1", "x1") or seen[-1][1:] != (job, "o1", "x1", (7,), {"kw": "k"}):
+            bad.append(f"job.process(output, item, 7, kw='k') called the user's function with {seen[-1][2:]}")
+        del seen[:]
+        got = list(vec.prepare(["x1", "x2"], 7, kw="k"))
+        calls = [c[2:] for c in seen if c[0] == "prep"]
+        if got != [("prepared", "x1"), ("prepared", "x2")] or calls != [("x1", (7,), {"kw": "k"}), ("x2", (7,), {"kw": "k"})]:
+            bad.append(f"vectorised prepare([x1, x2], 7, kw='k') called the user's function with {calls} and returned {got}")
+        del seen[:]
+        got = vec.process(["o1", "o2"], ["x1", "x2"], 7, kw="k")
+        calls = [c[2:] for c in seen if c[0] == "post"]
+        if got != [("processed", "o1", "x1"), ("processed", "o2", "x2")] or calls != [("o1", "x1", (7,), {"kw": "k"}), ("o2", "x2", (7,), {"kw": "k"})]:
+            bad.append(f"vectorised process called the user's function with {calls} and returned {got}")
+        rc = [c for c in seen if c[0] == "reduce"]
+        if len(rc) != 1 or rc[0][2:] != ((7,), {"kw": "k"}):
+            bad.append(f"vectorised process called reduce {len(rc)} times with {[c[2:] for c in rc]}")
+    except BaseException as ex:
+        bad.append(f"prepare/process with caller arguments raised {type(ex).__name__}: {ex}")
 else:
     print("unknown op")
     sys.exit(1)
